@@ -134,10 +134,38 @@ pub fn run_ops(ctx: &mut Ctx) {
             files.push((p, bytes));
             prev = Some(g);
         }
+        // every fourth directory instead holds A, B, C = the merge of A and B exactly as consolidation writes it (left there by an
+        // interrupted earlier consolidation) and a small D, in this order of modification time, with a target that groups [A, B]
+        // and then [C, D]: the shard returned for the first group is an input of the second
+        let mut planted_target: Option<u64> = None;
+        if dno % 4 == 1 {
+            for (p, _) in files.drain(..) { let _ = std::fs::remove_file(p); }
+            let mut put = |bytes: Vec<u8>, i: u64, files: &mut Vec<(PathBuf, Vec<u8>)>| {
+                let sf = MDBShardFile::write_out_from_reader(&dir, &mut Cursor::new(&bytes)).unwrap();
+                let t = SystemTime::UNIX_EPOCH + Duration::from_secs(1_700_000_000 + 10 * i);
+                std::fs::File::options().write(true).open(&sf.path).unwrap().set_modified(t).unwrap();
+                if !files.iter().any(|(q, _)| *q == sf.path) { files.push((sf.path.clone(), bytes)); }
+            };
+            let mut ga = { let (n1, n2) = (rng.range(2, 7) as usize, rng.range(2, 7) as usize); gen_content(&mut rng, n1, n2, 0, false) };
+            let mut gb = { let (n1, n2) = (rng.range(2, 7) as usize, rng.range(2, 7) as usize); gen_content(&mut rng, n1, n2, 0, false) };
+            let mut gd = gen_content(&mut rng, 1, 0, 0, false);
+            // no two chunks with the same truncated hash: the merged bytes (and so the merged shard's name) are then independent of
+            // how the unstable sort of the chunk table breaks ties, and the model reproduces the name
+            let mut seen = BTreeSet::new();
+            for g in [&mut ga, &mut gb, &mut gd] { for c in g.cas.iter_mut() { for ch in c.chunks.iter_mut() { while !seen.insert(ch.chunk_hash[0]) { ch.chunk_hash = rand_hash(&mut rng); } } } }
+            let (_, ba, ia) = build(&ga); let (_, bb, ib) = build(&gb); let (_, bd, _) = build(&gd);
+            let mut bc = Vec::new();
+            shard_set_union(&ia, &mut Cursor::new(&ba), &ib, &mut Cursor::new(&bb), &mut bc).unwrap();
+            let (la, lb, lc, ld) = (ba.len() as u64, bb.len() as u64, bc.len() as u64, bd.len() as u64);
+            put(ba, 0, &mut files); put(bb, 1, &mut files); put(bc, 2, &mut files); put(bd, 3, &mut files);
+            // [A, B] merge: la + lb < T <= la + lb + lc;  [C, D] merge: lc + ld < T
+            let lo = (la + lb).max(lc + ld) + 1; let hi = la + lb + lc;
+            if files.len() == 4 && lo <= hi { planted_target = Some(rng.range(lo, hi)); ctx.stat("consolidate_planted_merge_of_earlier_group"); }
+        }
         // junk that must be ignored
         std::fs::write(dir.join(".0a0a.mdb_temp"), b"junk").unwrap();
         let sizes: Vec<usize> = files.iter().map(|f| f.1.len()).collect();
-        let target = match rng.below(4) { 0 => 1u64, 1 => 1u64 << 30, _ => (sizes.iter().sum::<usize>() as u64 / 2).max(1) + rng.below(300) };
+        let target = if let Some(t) = planted_target { t } else { match rng.below(4) { 0 => 1u64, 1 => 1u64 << 30, _ => (sizes.iter().sum::<usize>() as u64 / 2).max(1) + rng.below(300) } };
         let replay = format!("{{\"suite\":\"shard_ops\",\"seed\":{},\"dir\":{},\"target\":{},\"sizes\":{:?}}}", ctx.seed, dno, target, sizes);
         let mut before_f = BTreeMap::new(); let mut before_c = BTreeMap::new();
         for (_, b) in &files { let (f, c) = records(b); before_f.extend(f); before_c.extend(c); }
